@@ -79,11 +79,21 @@ def parse_sel(line):
 LAG_COLS = ("pressure", "total mol", "volume")
 
 
-def lag_col(h):
+def lag_col(h, u=0.0, v=0.0):
     return h in LAG_COLS or h.startswith("g_")
 
 
-def cells_differ(a, b, skip=None, skipped=None):
+def ph_noise(h, u, v):
+    """pH of an unbuffered water follows total H, which the RAW text carries with 14 significant digits only"""
+    return h == "pH" and abs(u - v) <= 1e-5 * max(abs(u), abs(v))
+
+
+def skip_for(case):
+    gas = "gas" in case["kinds"]
+    return lambda h, u, v: ph_noise(h, u, v) or (gas and lag_col(h))
+
+
+def cells_differ(a, b, skip=None, skipped=None, rel=None):
     """compare two selected-output tables at relative 1e-7; returns description or None. Columns for which skip(heading)
     holds are not judged; their differences are appended to `skipped`."""
     if set(a) != set(b):
@@ -106,9 +116,9 @@ def cells_differ(a, b, skip=None, skipped=None):
                     for j in range(nc):
                         if heads[j][0] == "S" and unhx(heads[j][1:]) == base and ca[(k // nc) * nc + j][0] == "D":
                             scale = max(scale, abs(unhexd(ca[(k // nc) * nc + j][1:])))
-                if u == v or abs(u - v) <= REL * scale + ABS_FLOOR:
+                if u == v or abs(u - v) <= (rel or REL) * scale + ABS_FLOOR:
                     continue
-                if skip and skip(h):
+                if skip and skip(h, u, v):
                     if skipped is not None:
                         skipped.append(f"row {k // nc} column {h}: {u!r} vs {v!r}")
                     continue
@@ -179,7 +189,9 @@ def eval_case(ctx, exe, case, status_of, deep=True):
     if rcB != 0:
         res["problems"].append(("read-error", f"{rcB} errors reading the dump into a fresh instance: {errB[:400]}"))
         return res
-    skip = lag_col if "gas" in case["kinds"] else None
+    skip = skip_for(case)
+    # an adaptive rate integration amplifies the 14-digit rounding of the text up to its own error tolerance: judged at 1e-4 there
+    rel = 1e-4 if "kin" in case["kinds"] else None
     lag = []
     ops2 = list(ops)
     fresh("C", ops2)
@@ -240,6 +252,8 @@ def eval_case(ctx, exe, case, status_of, deep=True):
                 if k[0] in ("EXCHANGE_RAW", "SURFACE_RAW") and (f1.get(comp + "/phase_name") or f1.get(comp + "/rate_name")):
                     continue        # amounts of a component tied to a phase / kinetic reactant are re-derived from it when read (tidy)
                 st = status_of(KW2TAB[k[0]], p)
+                if st == "unmodelled":
+                    continue        # proof side unavailable (obligation broken): only the direct oracles are judged
                 if f1.get(p) is None and st.endswith("+guarded"):
                     continue        # written only under a condition on its own member: absent first, fresh value afterwards
                 st = st.replace("+guarded", "")
@@ -259,7 +273,7 @@ def eval_case(ctx, exe, case, status_of, deep=True):
         if rb[0] != 0:
             res["problems"].append(("followup", f"follow-up {name} runs on the original state but fails on the restored one: {rb[1][:300]}"))
             continue
-        d = cells_differ(parse_sel(out[rec["A"] + 1]), parse_sel(out[rec["B"] + 1]), skip, lag)
+        d = cells_differ(parse_sel(out[rec["A"] + 1]), parse_sel(out[rec["B"] + 1]), skip, lag, rel)
         if d:
             res["problems"].append(("followup", f"follow-up {name}: original vs restored: {d}"))
     if "mod" in idx:
@@ -269,11 +283,12 @@ def eval_case(ctx, exe, case, status_of, deep=True):
             if r2[0] != 0 or r3[0] != 0:
                 res["problems"].append(("modify", f"SOLUTION_MODIFY restore fails: {(r2[1] + r3[1])[:300]}"))
             else:
-                d = cells_differ(selA0, parse_sel(out[idx["mod"] + 3]), skip, lag)
+                d = cells_differ(selA0, parse_sel(out[idx["mod"] + 3]), skip, lag, rel)
                 if d:
                     res["problems"].append(("modify", f"after SOLUTION_MODIFY restoring totals/H/O/cb: {d}"))
     if lag:
-        res["lag"] = lag[:3]
+        res["lag"] = [x for x in lag if "column pH" not in x][:3]
+        res["phnoise"] = [x for x in lag if "column pH" in x][:3]
     # ---- stage 3 (own process: the copy constructor can take the process down): in-memory copies of a twin A2
     if not deep:
         return res
@@ -283,7 +298,7 @@ def eval_case(ctx, exe, case, status_of, deep=True):
     for nm in ("D", "E"):
         fresh(nm, ops3)
     i_rawA2 = len(ops3)
-    ops3 += ["rawall A2", "bincopy A2 D", "rawall D", "sercopy A2 E 0 12", "rawall E"]
+    ops3 += ["rawall A2", "bincopy A2 D", "rawall D", "sercopy A2 E 0 12", "rawall E", "serstream A2 0 12", "serstream E 0 12"]
     i_fu = len(ops3)
     ser_ok = not ({"mix", "rxn"} & set(case["kinds"]))
     for t in ("A2", "D") + (("E",) if ser_ok else ()):
@@ -308,6 +323,13 @@ def eval_case(ctx, exe, case, status_of, deep=True):
     res["copies"] += 1
     ser_kinds = {"SOLUTION_RAW", "EXCHANGE_RAW", "GAS_PHASE_RAW", "KINETICS_RAW", "EQUILIBRIUM_PHASES_RAW", "SOLID_SOLUTIONS_RAW",
                  "SURFACE_RAW", "REACTION_TEMPERATURE_RAW", "REACTION_PRESSURE_RAW"}
+    # a binary copy of a binary copy is the same stream: Serialize∘Deserialize∘Serialize = Serialize (catches index slips)
+    sa_, se_ = out[i_rawA2 + 5].split(";"), out[i_rawA2 + 6].split(";")
+    if sa_ != se_:
+        part = next((n for n, (x, y) in zip(("ints", "doubles", "words"), zip(sa_, se_)) if x != y), "length")
+        xs, ys = (sa_ + [""] * 3)[("ints", "doubles", "words", "length").index(part) % 3].split(","), (se_ + [""] * 3)[("ints", "doubles", "words", "length").index(part) % 3].split(",")
+        pos = next((n for n, (x, y) in enumerate(zip(xs, ys)) if x != y), min(len(xs), len(ys)))
+        res["problems"].append(("sercopy", f"Serialize(Deserialize(Serialize(state))) differs from Serialize(state): first difference in {part} at index {pos - 1}"))
     miss = [k for k in ea if k[0] in ser_kinds and 0 <= k[1] <= 12 and k not in eE]
     if miss:
         res["problems"].append(("sercopy", f"entities lost by Serialize/Deserialize: {miss}"))
@@ -324,7 +346,7 @@ def eval_case(ctx, exe, case, status_of, deep=True):
                     res["problems"].append((nm, f"follow-up runs on the original but fails on the copy: {rt[1][:200]}"))
                     continue
                 res["followups"] += 1
-                d = cells_differ(sa, parse_sel(out[pos + 1]), skip, lag)
+                d = cells_differ(sa, parse_sel(out[pos + 1]), skip, lag, rel)
                 if d:
                     res["problems"].append((nm, f"follow-up on the copy differs: {d}"))
     # ---- stage 4 (own process): Phreeqc copy constructor → InternalCopy
@@ -344,7 +366,8 @@ def eval_case(ctx, exe, case, status_of, deep=True):
                     if e0[k].get(p) != eF.get(k, {}).get(p)][:4]
             res["problems"].append(("icopy", f"dump_raw of the copy-constructed engine differs: {diff or sorted(set(e0) ^ set(eF))}"))
     if lag:
-        res["lag"] = lag[:3]
+        res["lag"] = [x for x in lag if "column pH" not in x][:3]
+        res["phnoise"] = [x for x in lag if "column pH" in x][:3]
     return res
 
 
@@ -438,6 +461,9 @@ def signature(case, r, p):
         return "gascomp-p_read-nan"
     if p[0] == "not-fixed" and "exch:phase-related" in case["feat"] and "EXCHANGE_RAW" in p[1] and "/totals/" in p[1]:
         return "exchange-on-empty-phase-two-cycles"
+    if p[0] in ("followup", "bincopy", "sercopy", "modify") and ({"exch:phase-related", "exch:rate-related"} & set(case["feat"])) \
+            and "column m_" in p[1] and "X" in p[1]:
+        return "exchange-tied-to-phase-followup"
     if p[0] == "icopy" and case["db"] == "pitzer.dat" and "copy constructor" in p[1]:
         return "copy-constructor-pitzer"
     return None
@@ -523,6 +549,12 @@ def run(ctx):
     for c, r in zip(cases, results):
         if r.get("lag"):
             sig_seen.setdefault("gas-phase-first-step-lag", []).append(r["lag"][0])
+        if r.get("phnoise"):
+            sig_seen.setdefault("raw-text-14-digits-pH", []).append(r["phnoise"][0])
+            if "raw-text-14-digits-pH" not in routed:
+                routed.add("raw-text-14-digits-pH")
+                ctx.finding("raw-text-14-digits-pH", "follow-up pH on the state restored from RAW text differs beyond 1e-7 (14 significant digits "
+                            "of total_h / cb): " + r["phnoise"][0], {"case": c, "problem": ["followup", r["phnoise"][0]]})
     for c, p in problems:
         if p[0] == "setup":
             continue
